@@ -1,80 +1,55 @@
 import Rangers.Basic.Hex
 import Rangers.Basic.Line
 import Rangers.Basic.Keccak
-import Rangers.Model.Trie
-import Rangers.Model.TrieStore
-import Rangers.Model.TrieLive
+import Rangers.Model.TrieMachine
 /-
 C02 line-protocol driver.  State = the live trie model (`Trie.LTrie`: nodes with cache flags,
-hash nodes, cache generation / limit, node database).
+hash nodes, cache generation / limit, node database); every trie operation goes through
+`Trie.lstep`, the machine `Props/C02Live` proves observationally equal to the fully loaded,
+flag-free model of `Props/C02`.
   new | upd k v | del k | get k | hash | commit | reopen | dbcommit | cachelimit n | iter start | shape | keccak x
-`Props/C02Live` proves that this machine observes exactly what the flag-free, fully loaded
-model `Trie.Node` (`Props/C02`) observes.
 -/
 namespace Rangers.Drive.C02
 open Rangers Rangers.Trie
 
 def H := Keccak.keccak256
 
-def showIter (l : List (Bytes × Bytes)) : String :=
-  "n=" ++ toString l.length ++ String.join (l.map (fun e => " " ++ toHex e.1 ++ ":" ++ toHex e.2))
+/-- fuel for full iteration: enough for keys of up to 2047 bytes (`Props.C02Live.lrun_observes`) -/
+def iterFuel : Nat := 8200
 
-/-- `Commit` + `NewTrie(root, db)`; the harness re-applies the cache limit to the new trie -/
-def reopen (t : LTrie) : LTrie × String :=
-  let r := t.commit H
-  match LTrie.open r.2.db r.1 with
-  | some t' => ({ t' with limit := t.limit }, toHex r.1)
-  | none => (r.2, "err-missing-node")
+def showObs : Obs → String
+  | .ok => "ok"
+  | .value (some v) => "v=" ++ toHex v
+  | .value none => "absent"
+  | .root h => toHex h
+  | .pairs l => "n=" ++ toString l.length ++ String.join (l.map (fun e => " " ++ toHex e.1 ++ ":" ++ toHex e.2))
+  | .err => "model-error"
+
+def parseOp (line : String) : Option Op :=
+  match splitWords line with
+  | ["upd", k, v] => do let k ← ofHex? k; let v ← ofHex? v; pure (.upd k v)
+  | ["del", k] => (ofHex? k).map .del
+  | ["get", k] => (ofHex? k).map .get
+  | ["hash"] => some .hash
+  | ["commit"] => some .commit
+  | ["reopen"] => some .reopen
+  | ["dbcommit"] => some .dbcommit
+  | ["cachelimit", n] => n.toNat?.bind (fun n => if n < 65536 then some (.cachelimit n) else none)
+  | ["iter", s] => (ofHex? s).map .iter
+  | _ => none
 
 def step (t : LTrie) (line : String) : LTrie × String :=
   match splitWords line with
   | ["new"] => (LTrie.empty, "ok")
-  | ["upd", k, v] =>
-    match ofHex? k, ofHex? v with
-    | some k, some v =>
-      match t.update k v with
-      | some t' => (t', "ok")
-      | none => (t, "model-error")
-    | _, _ => (t, "bad-op")
-  | ["del", k] =>
-    match ofHex? k with
-    | some k =>
-      match t.remove k with
-      | some t' => (t', "ok")
-      | none => (t, "model-error")
-    | none => (t, "bad-op")
-  | ["get", k] =>
-    match ofHex? k with
-    | some k =>
-      match t.get k with
-      | some (some v, t') => (t', "v=" ++ toHex v)
-      | some (none, t') => (t', "absent")
-      | none => (t, "model-error")
-    | none => (t, "bad-op")
-  | ["hash"] => let r := t.hash H; (r.2, toHex r.1)
-  | ["commit"] => let r := t.commit H; (r.2, toHex r.1)
-  | ["reopen"] => reopen t
-  | ["dbcommit"] => reopen t
-  | ["cachelimit", n] =>
-    match n.toNat? with
-    | some n => if n < 65536 then ({ t with limit := n }, "ok") else (t, "bad-op")
-    | none => (t, "bad-op")
-  | ["iter", s] =>
-    match ofHex? s with
-    | some s =>
-      -- `newNodeIterator` calls `trie.Hash()` (which caches hashes in the root), then walks,
-      -- resolving hash nodes without touching the trie
-      let t' := (t.hash H).2
-      match expandFull t'.db 4096 t'.root with
-      | some n => (t', showIter (iterFrom n s))
-      | none => (t', "err-missing-node")
-    | none => (t, "bad-op")
   | ["shape"] => (t, shapeL t.root ++ " g" ++ toString t.gen)
   | ["keccak", x] =>
     match ofHex? x with
     | some x => (t, toHex (H x))
     | none => (t, "bad-op")
-  | _ => (t, "bad-op")
+  | _ =>
+    match parseOp line with
+    | some op => let r := lstep H iterFuel t op; (r.1, showObs r.2)
+    | none => (t, "bad-op")
 
 def run : IO Unit := runLines LTrie.empty step
 end Rangers.Drive.C02
